@@ -433,6 +433,27 @@ def run(ctx):
                                 ctx.ob('C08.D5', q, 'error-values', ok,
                                        'RemoteError.values must be the body '
                                        'of the error reply', nontrivial=False)
+                                # the message is the FIRST argument when that
+                                # is a string - whatever follows it
+                                first = ('sub', body, C(0))
+                                is_str = None
+                                for c_, pol_ in cond:
+                                    if kind(c_) == 'call' and \
+                                            c_[1] == 'isinstance' and \
+                                            c_[3][:1] == (first,):
+                                        is_str = pol_
+                                okm = (msg == first) if is_str else (
+                                    is_str is False)
+                                ctx.ob('C08.D5', q, 'error-message', okm,
+                                       'RemoteError.message must be the '
+                                       'first argument of the error reply '
+                                       'whenever that is a string, and only '
+                                       'the test of that argument decides; '
+                                       'on this path it is %s [%s]' % (
+                                           term_str(msg)[:40], '; '.join(
+                                               '%s is %s' % (
+                                                   term_str(a)[:50], b)
+                                               for a, b in cond[-3:])))
                         elif info['how'].startswith('iter'):
                             ok = kind(a) == 'param'
                             ctx.ob('C08.D5', q, 'loss-reason', ok,
